@@ -317,6 +317,8 @@ pub fn check(problem: &PProblem, solution: &Value, opts: &OracleOptions) -> Vec<
         let mut job_activity_count = 0usize;
         let mut used_breaks: HashSet<usize> = HashSet::new();
         let mut used_required: HashSet<usize> = HashSet::new();
+        let mut used_stations: HashSet<usize> = HashSet::new();
+        let mut distance_at_last_recharge = 0f64;
         let mut used_reloads: HashSet<usize> = HashSet::new();
         let mut groups_here: HashSet<String> = HashSet::new();
         let mut compat_here: HashSet<String> = HashSet::new();
@@ -359,6 +361,14 @@ pub fn check(problem: &PProblem, solution: &Value, opts: &OracleOptions) -> Vec<
                 }
                 driving += stop.arrival - prev_departure;
                 distance += matrix.dist(prev_loc, stop_loc);
+                if let Some((limit, _)) = &shift.recharge {
+                    if distance - distance_at_last_recharge > limit + tol {
+                        f.push(Finding::new(
+                            "C01:recharge-distance",
+                            here(&format!("stop {si}: {} driven since the last recharge, limit {limit}", distance - distance_at_last_recharge)),
+                        ));
+                    }
+                }
                 if let Some(d) = stop.distance {
                     if (d - distance).abs() > tol {
                         f.push(Finding::new("C03:distance", here(&format!("stop {si} reports distance {d}, replay gives {distance}"))));
@@ -421,7 +431,14 @@ pub fn check(problem: &PProblem, solution: &Value, opts: &OracleOptions) -> Vec<
                                     Some((bi, (earliest, latest, duration))) => {
                                         used_required.insert(bi);
                                         replay_undefined = true;
-                                        if start < earliest - tol || start > latest + tol {
+                                        if start < stop.arrival - tol && (end - stop.departure).abs() <= tol {
+                                            // the interval is not a schedule: it begins before the vehicle has reached the stop (the writer
+                                            // places a break which was taken when the next leg began as "stop departure - duration")
+                                            f.push(Finding::new(
+                                                "C01:required-break-window:reported-before-arrival",
+                                                here(&format!("required break reported as [{start}, {end}] in a stop which is reached at {}", stop.arrival)),
+                                            ));
+                                        } else if start < earliest - tol || start > latest + tol {
                                             f.push(Finding::new("C01:required-break-window", here(&format!("required break starts at {start}, allowed [{earliest}, {latest}]"))));
                                         }
                                         if (end - start - duration).abs() > tol {
@@ -433,6 +450,24 @@ pub fn check(problem: &PProblem, solution: &Value, opts: &OracleOptions) -> Vec<
                                     None => f.push(Finding::new("C02:break-not-defined", here("break activity does not match a distinct break of this shift"))),
                                 }
                             }
+                        }
+                    }
+                    "recharge" => {
+                        // a distinct station of this shift; what was driven since the last recharge fits the limit
+                        let stations = shift.recharge.as_ref().map(|r| r.1.as_slice()).unwrap_or(&[]);
+                        match stations.iter().enumerate().find(|(i, st)| !used_stations.contains(i) && st.0 == act_loc && st.2 == a.tag) {
+                            Some((i, st)) => {
+                                used_stations.insert(i);
+                                let start = a.time.map_or(cur_time, |t| t.0);
+                                let end = a.time.map_or(start + st.1, |t| t.1);
+                                if (end - start - st.1).abs() > tol {
+                                    f.push(Finding::new("C03:recharge-duration", here(&format!("recharge lasts {}, defined {}", end - start, st.1))));
+                                }
+                                serving += end - start;
+                                cur_time = end;
+                                distance_at_last_recharge = distance;
+                            }
+                            None => f.push(Finding::new("C02:recharge-not-defined", here("recharge activity does not match a distinct station of this shift"))),
                         }
                     }
                     "reload" => {
